@@ -47,6 +47,17 @@ def close(a, b, tol=TOL):
     return abs(a - b) <= tol * max(1.0, abs(a), abs(b))
 
 
+def impl_raised(ex):
+    """True when the exception was raised inside the repository under test (or in a library it
+    called), False when the innermost frame is the harness' own code (then it is an infrastructure
+    problem, never an alarm)."""
+    tb = traceback.extract_tb(ex.__traceback__)
+    if not tb:
+        return False
+    inner = tb[-1].filename.replace("\\", "/")
+    return "/mcx/" not in inner and "/verif/tools/" not in inner
+
+
 def jsonable(x):
     """Best-effort conversion of a case description to JSON."""
     import datetime as _dt
@@ -222,6 +233,9 @@ class Report:
             pass
         except FileNotFoundError:
             pass
+        except Exception as ex:
+            # e.g. every case failed before producing an outcome: the violations below are what matters
+            print("note: evidence does not validate against the schema: %s" % str(ex).splitlines()[0])
         with open(os.path.join(VERIF, "evidence", "%s.json" % self.pid), "w") as f:
             json.dump(ev, f, indent=1, sort_keys=True)
         for sig, ent in self.known_seen.items():
